@@ -8,6 +8,7 @@ import (
 	"github.com/aml-org/amf-custom-validator/pkg"
 	"github.com/aml-org/amf-custom-validator/verifh/core"
 	"github.com/aml-org/amf-custom-validator/verifh/sx"
+	"github.com/open-policy-agent/opa/rego"
 )
 
 type c02obs struct {
@@ -43,12 +44,19 @@ func asStr(v any) string {
 	return fmt.Sprint(v)
 }
 
+func getObs(obs map[string]*c02obs, k string) *c02obs {
+	if obs[k] == nil {
+		obs[k] = &c02obs{strs: map[string]bool{}, nodes: map[string]bool{}}
+	}
+	return obs[k]
+}
+
 // C02: enumerated paths x graphs; the values each path reaches from every node are observed through the report
 // (in / maxCount / nested traces) and compared with PathSem.model_* (the generator's clauses) and PathSem.spec_*
 // (the denotation of C02).
 func C02(e *core.Env) {
 	res := e.Res
-	res.Rule = "cases = (path, graph, focus node); paths: every path with <= 2 leaves over ex.a ex.b ex.c forward/inverse and @type plus a seeded sample with 3-4 (quick) / all with 3 and a sample with 4-5 (thorough); " +
+	res.Rule = "cases = (path, graph, focus node); paths: every path with <= 2 leaves over ex.a ex.b ex.c forward/inverse and @type plus a seeded sample with 3-4 (quick) / all with 3 and a sample with 4-5 (thorough), plus every 3-part (and a sample of 4-part) sequence whose parts are a predicate, a parenthesised sequence or a parenthesised alternative; for every third path and all of the latter the three observing constraints are ALSO written under one path key and must see the same values; " +
 		"graphs: hand-made (cycle, diamond, self loop, literal and dangling link mid-path) + seeded random; observables: strings of reached values, number of distinct values, nodes reached for nested; " +
 		"non-trivial = the path reaches at least one value from that node; distinct by (path, graph, node)"
 	leaves := []PExp{Pr("ex.a", false), Pr("ex.b", false), Pr("ex.c", false), Pr("ex.a", true), Pr("ex.b", true), Pr("ex.c", true), Pr("@type", false)}
@@ -82,6 +90,34 @@ func C02(e *core.Env) {
 		PExp{Kind: "or", Kids: []PExp{{Kind: "and", Kids: []PExp{Pr("ex.a", false), Pr("ex.b", false)}}, {Kind: "and", Kids: []PExp{Pr("ex.a", true), Pr("ex.b", true)}}}},
 	)
 
+	// parenthesised groups inside a sequence: every 3-part sequence whose parts are a predicate, (x / y) or (x | y)
+	explicitFrom := len(paths) - 6
+	grp := func(k int, x, y PExp) PExp {
+		switch k {
+		case 1:
+			return PExp{Kind: "and", Kids: []PExp{x, y}}
+		case 2:
+			return PExp{Kind: "or", Kids: []PExp{x, y}}
+		}
+		return x
+	}
+	la, lb, lc, lai := Pr("ex.a", false), Pr("ex.b", false), Pr("ex.c", false), Pr("ex.a", true)
+	for k1 := 0; k1 < 3; k1++ {
+		for k2 := 0; k2 < 3; k2++ {
+			for k3 := 0; k3 < 3; k3++ {
+				if k1+k2+k3 == 0 {
+					continue
+				}
+				paths = append(paths, PExp{Kind: "and", Kids: []PExp{grp(k1, la, lb), grp(k2, lb, la), grp(k3, la, lc)}})
+				if e.Quick() && (k1+2*k2+k3)%3 != 0 {
+					continue
+				}
+				paths = append(paths, PExp{Kind: "and", Kids: []PExp{grp(k1, lai, la), grp(k2, la, lc), grp(k3, lb, lai), grp(k1, la, la)}})
+			}
+		}
+	}
+	withAll := func(i int) bool { return i >= explicitFrom || i%3 == 0 }
+
 	hand := Graph{Nodes: []GNode{
 		{ID: NodeID(0), Types: []string{ExNS + "T"}, Props: []GProp{{ExNS + "a", []GVal{VR(NodeID(1)), VR(NodeID(2)), VS("lit")}}, {ExNS + "b", []GVal{VR(NodeID(0))}}}},
 		{ID: NodeID(1), Types: []string{ExNS + "T"}, Props: []GProp{{ExNS + "a", []GVal{VR(NodeID(3))}}, {ExNS + "b", []GVal{VR(NodeID(3)), VI(7)}}, {ExNS + "c", []GVal{VR(NodeID(0))}}}},
@@ -94,6 +130,12 @@ func C02(e *core.Env) {
 	}
 
 	batch := 14
+	type compiledBatch struct {
+		q       *rego.PreparedEvalQuery
+		profile string
+		err     error
+	}
+	cache := map[int]*compiledBatch{} // one compilation per batch of paths, evaluated on every graph
 	for gi, g := range graphs {
 		data := g.JSONLD()
 		ids := g.IDs()
@@ -102,21 +144,38 @@ func C02(e *core.Env) {
 			if end > len(paths) {
 				end = len(paths)
 			}
-			var b strings.Builder
-			b.WriteString(ProfileHeader)
-			b.WriteString("violation:\n")
-			for i := start; i < end; i++ {
-				fmt.Fprintf(&b, "  - p%d-in\n  - p%d-cnt\n  - p%d-nest\n", i, i, i)
+			cb := cache[start]
+			if cb == nil {
+				var b strings.Builder
+				b.WriteString(ProfileHeader)
+				b.WriteString("violation:\n")
+				for i := start; i < end; i++ {
+					fmt.Fprintf(&b, "  - p%d-in\n  - p%d-cnt\n  - p%d-nest\n", i, i, i)
+					if withAll(i) {
+						fmt.Fprintf(&b, "  - p%d-all\n", i)
+					}
+				}
+				b.WriteString("validations:\n")
+				for i := start; i < end; i++ {
+					ps := yamlQuote(paths[i].Canon())
+					fmt.Fprintf(&b, "  p%d-in:\n    targetClass: ex.T\n    propertyConstraints:\n      %s:\n        in: [ __no_such_value__ ]\n", i, ps)
+					fmt.Fprintf(&b, "  p%d-cnt:\n    targetClass: ex.T\n    propertyConstraints:\n      %s:\n        maxCount: 0\n", i, ps)
+					// the same three constraints under ONE path key: every constraint of a property sees the same values
+					if withAll(i) {
+						fmt.Fprintf(&b, "  p%d-all:\n    targetClass: ex.T\n    propertyConstraints:\n      %s:\n        in: [ __no_such_value__ ]\n        maxCount: 0\n        nested:\n          propertyConstraints:\n            ex.nosuchproperty:\n              minCount: 1\n", i, ps)
+					}
+					fmt.Fprintf(&b, "  p%d-nest:\n    targetClass: ex.T\n    propertyConstraints:\n      %s:\n        nested:\n          propertyConstraints:\n            ex.nosuchproperty:\n              minCount: 1\n", i, ps)
+				}
+				cb = &compiledBatch{profile: b.String()}
+				cb.q, cb.err = pkg.CompileProfile(cb.profile, false, nil)
+				cache[start] = cb
 			}
-			b.WriteString("validations:\n")
-			for i := start; i < end; i++ {
-				ps := yamlQuote(paths[i].Canon())
-				fmt.Fprintf(&b, "  p%d-in:\n    targetClass: ex.T\n    propertyConstraints:\n      %s:\n        in: [ __no_such_value__ ]\n", i, ps)
-				fmt.Fprintf(&b, "  p%d-cnt:\n    targetClass: ex.T\n    propertyConstraints:\n      %s:\n        maxCount: 0\n", i, ps)
-				fmt.Fprintf(&b, "  p%d-nest:\n    targetClass: ex.T\n    propertyConstraints:\n      %s:\n        nested:\n          propertyConstraints:\n            ex.nosuchproperty:\n              minCount: 1\n", i, ps)
+			profile := cb.profile
+			var out string
+			err := cb.err
+			if err == nil {
+				out, err = pkg.ValidateCompiled(cb.q, data, false, nil)
 			}
-			profile := b.String()
-			out, err := pkg.Validate(profile, data, false, nil)
 			if err != nil {
 				res.Violate("impl-violates-property", "a profile made of enumerated paths does not validate: "+err.Error(),
 					map[string]any{"profile": profile, "data": data, "error": err.Error()})
@@ -128,13 +187,8 @@ func C02(e *core.Env) {
 				continue
 			}
 			obs := map[string]*c02obs{} // key: path index / node
-			get := func(i int, n string) *c02obs {
-				k := fmt.Sprintf("%d/%s", i, n)
-				if obs[k] == nil {
-					obs[k] = &c02obs{strs: map[string]bool{}, nodes: map[string]bool{}}
-				}
-				return obs[k]
-			}
+			get := func(i int, n string) *c02obs { return getObs(obs, fmt.Sprintf("%d/%s", i, n)) }
+			getAll := func(i int, n string) *c02obs { return getObs(obs, fmt.Sprintf("all/%d/%s", i, n)) }
 			for _, r := range rep.Results {
 				var idx int
 				var kind string
@@ -142,7 +196,20 @@ func C02(e *core.Env) {
 					continue
 				}
 				o := get(idx, r.Focus)
+				if kind == "all" {
+					o = getAll(idx, r.Focus)
+				}
 				for _, tv := range traceValues(r) {
+					kind := kind
+					if kind == "all" {
+						if _, ok := tv["failedNodes"]; ok {
+							kind = "nest"
+						} else if _, ok := tv["actual"].(float64); ok && strings.Contains(fmt.Sprint(tv["condition"]), "<=") {
+							kind = "cnt"
+						} else {
+							kind = "in"
+						}
+					}
 					switch kind {
 					case "in":
 						o.strs[asStr(tv["actual"])] = true
@@ -186,6 +253,17 @@ func C02(e *core.Env) {
 					res.Count(fmt.Sprintf("leaves=%d", strings.Count(paths[i].Canon(), "ex.")+strings.Count(paths[i].Canon(), "@type")))
 					replay := map[string]any{"path": paths[i].Canon(), "focus": n, "data": data, "impl": impl.String(), "model": model.String(), "spec": spec.String(),
 						"observables": "(strings of reached values, number of distinct values, nodes reached by nested)", "profile_fragment": "propertyConstraints: {" + paths[i].Canon() + ": {in: [x]}} / {maxCount: 0} / {nested: ...}"}
+					oa := getAll(i, n)
+					implAll := sx.L(strsSx(sortedKeys(oa.strs)), sx.I(oa.count), strsSx(sortedKeys(oa.nodes)))
+					if withAll(i) && implAll.String() != impl.String() && implAll.String() != spec.String() {
+						rp := map[string]any{}
+						for k, v := range replay {
+							rp[k] = v
+						}
+						rp["impl_three_constraints_under_one_key"] = implAll.String()
+						rp["profile_fragment"] = "propertyConstraints: {" + paths[i].Canon() + ": {in: [x], maxCount: 0, nested: ...}} versus the same three constraints in three validations"
+						res.Violate("impl-violates-property", "three constraints written under one key `"+paths[i].Canon()+"` do not all see the path's denotation from "+n, rp)
+					}
 					if len(implNodes) != o.nn {
 						res.Violate("impl-violates-property", "nested failedNodes differs from the number of distinct sub-result focus nodes for "+key, replay)
 					}
